@@ -4,6 +4,7 @@ package vc
 
 import (
 	"go/ast"
+	"go/token"
 	"go/types"
 	"math"
 	"math/big"
@@ -19,6 +20,8 @@ func init() {
 	preludeFuns["OccI"] = preludeFun{[]Sort{ArrSort(SInt, SInt), SInt, SInt, SInt}, SInt}
 	preludeFuns["OccR"] = preludeFun{[]Sort{ArrSort(SInt, SReal), SInt, SInt, SReal}, SInt}
 	preludeFuns["pow2"] = preludeFun{[]Sort{SInt}, SInt}
+	preludeFuns["OccX"] = preludeFun{[]Sort{ArrSort(SInt, SF), SInt, SInt, SF}, SInt}
+	preludeFuns["XSum"] = preludeFun{[]Sort{ArrSort(SInt, SF), SInt, SInt}, SReal}
 }
 
 const preludeMath = `
@@ -33,6 +36,8 @@ const preludeMath = `
 (declare-fun OccI ((Array Int Int) Int Int Int) Int)
 (declare-fun OccR ((Array Int Real) Int Int Real) Int)
 (declare-fun f64bits ((_ FloatingPoint 11 53)) (_ BitVec 64))
+(declare-fun OccX ((Array Int XF) Int Int XF) Int)
+(declare-fun XSum ((Array Int XF) Int Int) Real)
 `
 
 func (c *Ctx) libCall(fo *types.Func, x *ast.CallExpr, se *ast.SelectorExpr) *Val {
@@ -298,12 +303,18 @@ func (c *Ctx) sortSlice(s *Val) {
 	i := Term{S: "so!i", Sort: SInt}
 	j := Term{S: "so!j", Sort: SInt}
 	k := Term{S: "so!k", Sort: lf.sort}
-	c.assume(Forall([]Term{i, j}, Implies(And(Le(lo, i), Le(i, j), Lt(j, hi)), Le(Select(z, i), Select(z, j))), []Term{Select(z, i), Select(z, j)}))
+	c.assume(Forall([]Term{i, j}, Implies(And(Le(lo, i), Le(i, j), Lt(j, hi)), c.order(token.LEQ, Select(z, i), Select(z, j), elem)), []Term{Select(z, i), Select(z, j)}))
 	c.assume(Forall([]Term{i}, Implies(Or(Lt(i, lo), Ge(i, hi)), StructEq(Select(z, i), Select(old, i))), []Term{Select(z, i)}))
 	occ := "OccI"
-	if lf.sort == SReal {
+	switch lf.sort {
+	case SReal:
 		occ = "OccR"
+	case SF:
+		occ = "OccX"
 	}
 	c.assume(Forall([]Term{k}, Eq(App(SInt, occ, z, lo, hi, k), App(SInt, occ, old, lo, hi, k)), []Term{App(SInt, occ, z, lo, hi, k)}))
+	// consequences of being a permutation: every new element is an old one and vice versa
+	c.assume(Forall([]Term{i}, Implies(And(Le(lo, i), Lt(i, hi)), Exists([]Term{j}, And(Le(lo, j), Lt(j, hi), StructEq(Select(z, i), Select(old, j))))), []Term{Select(z, i)}))
+	c.assume(Forall([]Term{j}, Implies(And(Le(lo, j), Lt(j, hi)), Exists([]Term{i}, And(Le(lo, i), Lt(i, hi), StructEq(Select(z, i), Select(old, j))))), []Term{Select(old, j)}))
 	c.setHeap(lf.name, Store(h, s.Arr, z))
 }
